@@ -15,7 +15,8 @@ HERE = os.path.dirname(os.path.abspath(__file__))
 
 
 def digests(cid, tier, count, nproc, hashseed):
-    env = dict(os.environ, PYTHONHASHSEED=str(hashseed), PYTHONPATH=HERE, PYTHONDONTWRITEBYTECODE="1")
+    env = dict(os.environ, PYTHONHASHSEED=str(hashseed), PYTHONDONTWRITEBYTECODE="1",
+               PYTHONPATH=os.path.join(os.environ.get("VERIF_REPO", "/repo"), "src") + os.pathsep + HERE)
     procs = [subprocess.Popen(["/venv/bin/python", "-m", "simkit.cli", "--worker", cid, tier, "0", str(w), str(nproc),
                                str(count), "600"], cwd=HERE, env=env, stdout=subprocess.PIPE, stderr=subprocess.PIPE,
                               text=True) for w in range(nproc)]
@@ -75,7 +76,7 @@ def reverts():
     rows = []
     for line in open(os.path.join(HERE, "known_findings.txt")):
         m = re.match(r"fixed: property=(C\d+) ([0-9a-f]{7,})", line)
-        if m:
+        if m and "[defence-in-depth" not in line:
             rows.append((m.group(1), m.group(2)))
     ok = True
     only = sys.argv[2:] if len(sys.argv) > 2 else None
@@ -90,7 +91,7 @@ def reverts():
             if r.returncode != 0:
                 print("%s %s: revert does not apply cleanly on HEAD (later fixes touch the same lines) - skipped" % (cid, commit))
                 continue
-            env = dict(os.environ, VERIF_REPO=wt, VERIF_WALL="40", PYTHONPATH=HERE)
+            env = dict(os.environ, VERIF_REPO=wt, VERIF_WALL="40")
             p = subprocess.run([os.path.join(HERE, "check"), cid, "--tier", "quick"], cwd=HERE, env=env,
                                capture_output=True, text=True)
             sigs = re.findall(r"signature: (\S+)", p.stdout)
